@@ -214,7 +214,14 @@ def rule_py_siblings(ctx, py):
               "forward and reverse halves of every reaction", "", "")
     ctx.check("k_r=valproc.get_value_in_env(r.kf,env,UnitValue(0,Units(units_system,r.kf_units_dimensions()))).convert(units_system).value" in s,
               R, m, m._qual, "constant of the cell's environment, converted", "", "")
-    ctx.floor(R, 13)
+    from . import c04
+    for v in c04.value_loads(m):
+        cv = c04.is_convert_value(v)
+        ctx.check(cv is not None and pyfe.src(cv[1]) == "units_system", R, v, m._qual, pyfe.src(v)[:80],
+                  "number taken after conversion to the requested units system",
+                  "a number enters the exported right-hand side without conversion to the requested units system: "
+                  "the law is evaluated with a volume / constant in other units")
+    ctx.floor(R, 15)
 
 
 def run(ctx):
@@ -234,6 +241,9 @@ def run(ctx):
         ctx.check(okk, "C01.SIB", node, fn, what, good, bad)
     ctx.floor("C01.SIB", 11)
     rule_phase(ctx, tu, eff)
+    from . import c02, c04
+    c02.flux_rule(ctx, tu, "C01.FLUX")
+    ctx.floor("C01.FLUX", 3)
     rule_env(ctx, tu, py, I)
     rule_py_siblings(ctx, py)
     ctx.assume("agreement to rounding is not decided; that the mean is harmonic is decided only relatively (all four "
